@@ -407,7 +407,7 @@ Lemma is_vi_not_known id : is_vi id = true -> known_id id = false.
 Proof.
   unfold is_vi, known_id, tpMaxIdleTimeout, tpMaxUDPPayloadSize, tpInitialMaxData, tpInitialMaxStreamDataBidiLocal,
     tpInitialMaxStreamDataBidiRemote, tpInitialMaxStreamDataUni, tpInitialMaxStreamsBidi, tpInitialMaxStreamsUni,
-    tpActiveConnectionIDLimit, tpMaxDatagramFrameSize.
+    tpActiveConnectionIDLimit, tpMaxDatagramFrameSize, tpAckDelayExponent, tpMaxAckDelay.
   intros H. apply orb_prop in H as [H|H]; apply Z.eqb_eq in H; subst; reflexivity.
 Qed.
 
@@ -433,8 +433,12 @@ Definition wire_bytes (o : Z -> list Z -> list Z) (ps : list tparam) : list Z :=
    byte string uTLS then writes into the ClientHello: one draw [o]. *)
 Definition override_bytes (o : Z -> list Z -> list Z) (ps : list tparam) : list Z := wire_bytes o ps.
 
-Theorem record_equals_wire o ps : override_bytes o ps = wire_bytes o ps.
+(* by construction of the model (it mirrors the repaired code, which takes ClientOverride from the
+   extension's cached encoding); the check that the code does so is the correspondence (o_override_ok) *)
+Theorem record_bytes_are_wire_bytes_by_construction o ps : override_bytes o ps = wire_bytes o ps.
 Proof. reflexivity. Qed.
+
+
 
 Theorem record_equals_wire_limits o ps :
   (forall id b, vwf (zlen (o id b))) -> Forall wf_param ps ->
@@ -445,6 +449,56 @@ Proof.
   intros H W. exists (redraw o ps). unfold override_bytes, wire_bytes.
   rewrite (parse_marshal _ (wf_redraw o ps H W)). rewrite !kv_of_redraw. repeat split; reflexivity.
 Qed.
+
+(** * The record is what a peer reads from the bytes sent, field by field *)
+
+Lemma known_not_dam id : known_id id = true -> (id =? tpDisableActiveMigration) = false.
+Proof.
+  unfold known_id, tpMaxIdleTimeout, tpMaxUDPPayloadSize, tpInitialMaxData, tpInitialMaxStreamDataBidiLocal,
+    tpInitialMaxStreamDataBidiRemote, tpInitialMaxStreamDataUni, tpInitialMaxStreamsBidi, tpInitialMaxStreamsUni,
+    tpActiveConnectionIDLimit, tpMaxDatagramFrameSize, tpAckDelayExponent, tpMaxAckDelay, tpDisableActiveMigration.
+  intros H. destruct (Z.eqb_spec id 12) as [->|]; [discriminate | reflexivity].
+Qed.
+
+Lemma record_fold ps : forall l x d,
+  fold_left rec_step ps (l, x, d) =
+  (fold_left set_adv (kv_of ps) l, fold_left set_extra (kv_of ps) x, if existsb is_dam ps then 1 else d).
+Proof.
+  induction ps as [|[id b] t IH]; intros l x d; [reflexivity|].
+  cbn [fold_left existsb]. unfold rec_step at 2. cbn [fst snd kv_of].
+  destruct (known_id id) eqn:K.
+  - assert (D : is_dam (id, b) = false) by (unfold is_dam; cbn [fst]; apply known_not_dam, K).
+    rewrite D. cbn [orb].
+    destruct (vparse b) as [e | [[v n] r]]; [apply IH|].
+    destruct r; [|apply IH]. cbn [fold_left]. apply IH.
+  - destruct (is_dam (id, b)); cbn [orb].
+    + rewrite IH. destruct (existsb is_dam t); reflexivity.
+    + apply IH.
+Qed.
+
+Theorem record_is_reading ps : record_of ps = read_list ps.
+Proof. unfold record_of, read_list, advertised. apply record_fold. Qed.
+
+Lemma existsb_dam_redraw o ps : existsb is_dam (redraw o ps) = existsb is_dam ps.
+Proof.
+  induction ps as [|[id b] t IH]; [reflexivity|]. cbn [redraw map existsb fst snd].
+  rewrite <- IH. unfold redraw. f_equal. unfold is_dam. destruct (is_vi id); reflexivity.
+Qed.
+
+Lemma read_list_redraw o ps : read_list (redraw o ps) = read_list ps.
+Proof. unfold read_list. rewrite kv_of_redraw, existsb_dam_redraw. reflexivity. Qed.
+
+(* The record (what PopulateFromUQUIC stores, field by field, from the typed list) is what a peer
+   reads from the bytes that go on the wire -- for every well-formed list, whatever GREASE version the
+   marshaling draws *)
+Theorem record_equals_wire_fields o ps :
+  (forall id b, vwf (zlen (o id b))) -> Forall wf_param ps ->
+  read_wire (wire_bytes o ps) = Some (record_of ps).
+Proof.
+  intros Ho W. unfold read_wire, wire_bytes.
+  rewrite (parse_marshal _ (wf_redraw o ps Ho W)). rewrite read_list_redraw, record_is_reading. reflexivity.
+Qed.
+
 
 (** * After any history of grants, what the client enforces is what it last advertised *)
 
